@@ -335,7 +335,7 @@ def safe_tail(key: bytes, off: int, tail: str) -> str:
 
 
 def build_case(rng, *, key: bytes, keys, ak: bool, container: str, off: int, total: int, filler: str, B: int,
-               blocksize=PATCH, cut=False, decoys=(), tail="zero", nset=None, stub_decoy=None):
+               blocksize=PATCH, cut=False, decoys=(), tail="zero", nset=None, stub_decoy=None, stublen=None):
     """One payload.  Returns (data, views) where views is the ground truth search order [(xorencoded, bytes)].
 
     container: raw | pe | xs (XorEncoded stage, size dword correct) | xm (marker only) | xsm (both) | xbad (neither: not detected)
@@ -366,7 +366,8 @@ def build_case(rng, *, key: bytes, keys, ak: bool, container: str, off: int, tot
     view = bytes(view)
     if container in ("raw", "pe"):
         return view, [(False, view)]
-    stublen = rng.choice([0, 1, 5, 64, 300, 1000]) if container != "xm" else rng.choice([3, 4, 64, 300, 1000])
+    if stublen is None:
+        stublen = rng.choice([0, 1, 5, 64, 300, 1000]) if container != "xm" else rng.choice([3, 4, 64, 300, 1000])
     stub = None
     if stub_decoy is not None:
         # a full raw candidate inside the stub (outside the decoded view): must lose against the view
@@ -567,6 +568,44 @@ def gen(tier, rng, shard, nshards):
                                      filler=rng.choice(["runs", "runs", "zero", "random"]), B=B, blocksize=sizes[0],
                                      decoys=[(kk, oo, ss) for kk, oo, ss in zip(ks[1:], offs[1:], sizes[1:])])
             yield emit(entry(), B, True, None, data, views)
+
+        # ---- 7b. caller-supplied key list that omits default keys, all-keys requested: "all 256" includes the omitted defaults
+        for rep in range(24 if thorough else 8):
+            for key in DEFAULT_KEYS + [bytes([rng.randrange(1, 256)])]:
+                if not mine():
+                    continue
+                others = [k for k in DEFAULT_KEYS if k != key]
+                keys = rng.choice([[bytes([rng.choice([0x41, 0x13, 0xAF])])], [others[0]], others[:2], [b"\x41", others[-1]]])
+                keys = [k for k in keys if k != key]
+                B = rng.choice([8192, 200])
+                container = rng.choice(["raw", "raw", "pe", "xs"])
+                off = rng.choice([0, 5, 900]) + (720 if container != "raw" else 0)
+                bs = rng.choice([PATCH, 128]) if container == "raw" else 128
+                for ak in (True, False):
+                    data, views = build_case(rng, key=key, keys=keys, ak=True, container=container, off=off, total=off + bs + 40,
+                                             filler=rng.choice(["zero", "random", "runs"]), B=B, blocksize=bs)
+                    yield emit(entry(), B, ak, keys, data, views)
+
+        # ---- 7c. XorEncoded stages whose loader stub ends right below the detector's 1024-byte window (size relation only /
+        #          marker only / both) and just beyond it (not detectable: the raw view is searched)
+        for container in ["xs", "xm", "xsm"]:
+            for sl in ([1009, 1015, 1016, 1017, 1018, 1019, 1020, 1021, 1022, 1023, 1024, 1025, 1031] if thorough
+                       else [1016, 1017, 1019, 1020, 1022, 1023, 1024, 1027]):
+                if not mine():
+                    continue
+                key = rng.choice(DEFAULT_KEYS)
+                B = rng.choice([8192, 8192, 256])
+                off = rng.choice([720, 800, 1500])
+                if sl >= 1024 or (container == "xm" and False):
+                    # out of the window: the detector's answer is its own business (C09); keep these as correspondence cases
+                    pass
+                data, views = build_case(rng, key=key, keys=None, ak=False, container=container, off=off, total=off + 128 + 60,
+                                         filler=rng.choice(["zero", "random"]), B=B, blocksize=128, stublen=sl)
+                if sl >= 1022 and container != "xs":
+                    continue   # the marker itself would straddle the window: detector-defined, not this property's subject
+                if sl > 1023:
+                    views = [(False, data)]
+                yield emit(entry(), B, False, None, data, views)
 
     # ---- 8. random mix
     for _ in range((600 if thorough else 60) // nshards):
